@@ -24,6 +24,7 @@ class Ctx:
 
 
 def match_known(known, pid, v):
+    pid = v.get("p", pid)
     """A violation is attributed to an open finding only if the finding's signature tag was
     computed for it by the observer (kf field) and the finding lists this property."""
     kf = v.get("kf", "")
@@ -35,7 +36,8 @@ def match_known(known, pid, v):
     return None
 
 
-def gateway_run(fams, nontrivial_kinds):
+def gateway_run(fams, nontrivial_kinds, also=()):
+    """also: predicates of other properties that, on these families, are part of this property's statement."""
     def run(ctx):
         viols, cov_f = [], {}
         tot = dict(states=0, transitions=0, traces=0, steps=0, skipped=0, env_states=0, schedules=0, distinct=0, lines=0)
@@ -45,7 +47,7 @@ def gateway_run(fams, nontrivial_kinds):
             res = pipeline.run_family(fam, ctx.tier, ctx.seed, ctx.workdir, binp=None if ctx.use_cache else ctx.harness(),
                                       use_cache=ctx.use_cache)
             for v in res["violations"]:
-                if v["p"] == ctx.pid:
+                if v["p"] == ctx.pid or v["p"] in also:
                     viols.append(v)
             if ctx.pid in ("C15",):
                 for v in res["violations"]:
@@ -124,7 +126,7 @@ PROPS = {
     "C04": dict(run=gateway_run(["access", "cache", "win-recheck"], ["mres", "cres"])),
     "C05": dict(run=gateway_run(["access", "win-recheck"], ["mreq"])),
     "C06": dict(run=gateway_run(["access", "stream", "win-recheck", "win-load"], ["note", "cev"])),
-    "C13": dict(run=gateway_run(["query", "win-query", "win-alias"], ["mreq", "mres"])),
+    "C13": dict(run=gateway_run(["query", "win-query", "win-alias"], ["mreq", "mres"], also=("C01",))),
     "C15": dict(run=gateway_run(["gc", "stream", "access", "cache", "query", "win-load", "win-recheck", "win-query", "win-alias", "win-evict", "win-gc"], ["cres", "cev"])),
 }
 
